@@ -133,6 +133,11 @@ def compare_rows(prop, what, got, expected_rows, ref, fails, detail):
 def check_order(prop, what, parts_idx, fails, detail):
     """parts_idx: list (partition order) of lists of index values"""
     B = [prop, what]
+    flat = [v for ix in parts_idx for v in ix]
+    if len({type(v).__name__ for v in flat} - {'int', 'float'}) > 0:
+        # index values that are not Hilbert distances at all (e.g. labels of rows that should not be there)
+        fails.append((B + ['order', 'index-values-not-numeric'], f'{flat[:20]}; {detail}'))
+        return
     for j, ix in enumerate(parts_idx):
         if any(a > b for a, b in zip(ix[:-1], ix[1:])):
             fails.append((B + ['order', 'within-partition'], f'partition {j} index {ix[:30]}; {detail}'))
